@@ -419,6 +419,9 @@ def gen_valid(rng, method, cheap=True):
         salt = rsalt(r, n, SAFE_EXTRA if xa else A64)
         if rs == b"" and salt.startswith(b"rounds="):
             salt = b"x" + salt[1:]
+        if rs != b"" and r.random() < (0.3 if rk == "def" else 0.05):
+            salt = b"rounds=%d" % r.choice([1000, 5000, 77777])      # a salt that looks like a rounds field
+            n = len(salt)
         t = r.choice(["", "$", "$h", "$x"])
         s = tg + rs + salt
         if t == "$":
@@ -458,6 +461,9 @@ def gen_valid(rng, method, cheap=True):
         elif rk == "rnd":
             rs = b"rounds=%d$" % r.choice([2, 9, 10, 99, 100, 904, r.randint(1, 1500)])
         n = r.choice([0, 1, 4, 8, 9, 16, 40, 100])
+        if r.random() < 0.2:
+            # the salt has no length limit of its own: aim at total lengths around what still fits
+            n = max(0, r.randint(350, 366) - 5 - len(rs))
         t = r.choice(["", "$", "$$", "$h", "$x", "$$h"])
         s = b"$md5" + sep + rs + rsalt(r, n)
         if t == "$":
@@ -500,7 +506,9 @@ def gen_valid(rng, method, cheap=True):
         nl = r.choice([1, 2, 3, 4, 6, 8, 10])
         rr = r.choice([1, 1, 2, 3, 8])
         p = r.choice([1, 1, 2, 3])
-        n = r.choice([0, 1, 8, 16, 22, 43, 86, 120])
+        # raw scrypt salts have no length limit of their own: go up to what fits the output field
+        n = r.choice([0, 1, 8, 16, 22, 43, 86, 120, 200, 270, 284, 285, 290, 300, 320, 325, 326, 340,
+                      r.randint(310, 330)])
         sk = r.choice(["a64", "a64", "dollar"])
         salt = rsalt(r, n)
         if sk == "dollar" and n >= 3:
